@@ -1106,9 +1106,9 @@ def selftest():
 
 
 SUBS = [
-    Sub("history", check_history, strategy=strat_history, quick=400, thorough=3000, workers_quick=3,
+    Sub("history", check_history, strategy=strat_history, quick=700, thorough=3000, workers_quick=3,
         workers_thorough=16, budget_quick=20, budget_thorough=400),
-    Sub("content", check_content, strategy=strat_content, quick=220, thorough=5000, workers_quick=4,
+    Sub("content", check_content, strategy=strat_content, quick=400, thorough=5000, workers_quick=4,
         workers_thorough=16, budget_quick=35, budget_thorough=500),
 ]
 
